@@ -75,12 +75,13 @@ def gen_tables(ctx):
     before = PR.process_state()
     with np.errstate():
         cfg = P.default_config()
+        atom_rows = P.probe_atombase()
         cfgs = [(k, P.extract_config(k, *v)) for k, v in P.custom_configs().items()]
         after = PR.process_state()
     PROBE_EFFECT.clear()
     PROBE_EFFECT.update({k: (before[k], after[k]) for k in before if before[k] != after[k]})
     doc = P.doc_steps((core.REPO / "docs" / "source" / "solver" / "index.rst").read_text())
-    if core.write_if_changed(GEN1, P.render_c01(cfg, doc)):
+    if core.write_if_changed(GEN1, P.render_c01(cfg, doc, atom_rows)):
         changed.append(str(GEN1))
     if core.write_if_changed(GEN2, P.render_c02(cfgs)):
         changed.append(str(GEN2))
